@@ -82,7 +82,7 @@ Definition enter_write (h : hstate) : hstate :=
   match hs_buf h with
   | Some _ => {| hs_tape := hs_tape h; hs_isize := hs_isize h; hs_rpos := None; hs_buf := hs_buf h; hs_fl := hs_fl h |}
   | None =>
-    let pos := match hs_rpos h with Some k => if fl_trunc (hs_fl h) then 0 else k | None => 0 end in
+    let pos := match hs_rpos h with Some k => k | None => 0 end in
     let b0 := if fl_trunc (hs_fl h) then [] else hs_tape h in
     {| hs_tape := hs_tape h; hs_isize := hs_isize h; hs_rpos := None; hs_buf := Some (b0, pos); hs_fl := hs_fl h |}
   end.
@@ -90,9 +90,10 @@ Definition enter_write (h : hstate) : hstate :=
 Definition set_buf (h : hstate) (b : content) (cur : N) : hstate :=
   {| hs_tape := hs_tape h; hs_isize := hs_isize h; hs_rpos := hs_rpos h; hs_buf := Some (b, cur); hs_fl := hs_fl h |}.
 
-(* seekWithoutLocking in read mode: restart the stream when going backwards, skip forward, report the target *)
+(* seekWithoutLocking in read mode: restart the stream when going backwards, skip forward, report the target; the cursor may
+   lie behind the end of the content (readBeyond): reads there return nothing *)
 Definition seek_read (h : hstate) (dst : N) : hstate :=
-  {| hs_tape := hs_tape h; hs_isize := hs_isize h; hs_rpos := Some (N.min dst (clen (hs_tape h)));
+  {| hs_tape := hs_tape h; hs_isize := hs_isize h; hs_rpos := Some dst;
      hs_buf := None; hs_fl := hs_fl h |}.
 
 Definition h_seek (h : hstate) (off : Z) (w : N) : hstate * hres :=
